@@ -67,6 +67,8 @@ M = [
      "      SpillBuffer();\n      // Poison.", "      // Poison."),
     ("C06", "empty gzip shard not flushed (dirty_ false)", "break", "util/compress.cc",
      "dirty_(true /* Even if input is empty, generate a valid gzip file */)", "dirty_(false)"),
+    ("C06", "lines read with the default strip_cr again", "break", "preprocess/shard_main.cc",
+     "in.ReadLineOrEOF(line, '\\n', false)", "in.ReadLineOrEOF(line)"),
     ("C06", "seeded C06-n3: CreateOrThrow without O_TRUNC", "break", "util/file.cc",
      "open(name, O_CREAT | O_TRUNC | O_RDWR, S_IRUSR", "open(name, O_CREAT | O_RDWR, S_IRUSR"),
     ("C06", "harmless: variable renamed, statements reordered", "harmless", "preprocess/shard_main.cc",
